@@ -45,6 +45,7 @@ HISTORIES = [
     ("multi-byte character cut by the read boundary", None, [("arrive", "cut-char"), ("request", 1), ("drain",)]),
     ("burst with paste_threshold None", "none", [("arrive", "burst"), ("drain",)]),
     ("burst below a large threshold", 100, [("arrive", "burst"), ("drain",)]),
+    ("threshold 0: every read is a paste", 0, [("arrive", "a"), ("request", 1), ("arrive", "ab"), ("request", 1), ("request", 0)]),
     ("threshold 1: two bytes are a paste", 1, [("arrive", "ab"), ("request", 1), ("request", 0)]),
     ("lone escape at the end of a read", None, [("arrive", "esc"), ("request", 1), ("request", 0)]),
     ("trigger created after a request has already waited", None, [("request", 0.1), ("tsevent", 0, 1), ("request", None), ("tsevent", 1, 1), ("request", 2), ("request", 0)]),
